@@ -132,7 +132,7 @@ def r1(ctx):
     f = p.func(f"{TPL}.get_command")
     rets = _ret_exprs(f)
     ctx.require(len(rets) == 1, "C25.R1: get_command has not exactly one return")
-    call = rets[0]
+    call = _through_temp(f, rets[0])
     ctx.require(isinstance(call, ast.Call), "C25.R1: get_command does not return a render() call")
     for k in call.keywords:
         if k.arg == "streamflow_environment":
